@@ -233,7 +233,9 @@ class AstGen:
         r = self.rng
         if not self.comments or r.below(3):
             return None
-        return r.choice([" doc", " two words", "tight", " a\n b", " x = 1; struct {", " [not a tag]", " trailing space "])
+        return r.choice([" doc", " two words", "tight", " a\n b", " x = 1; struct {", " [not a tag]", " trailing space ",
+                         # empty comment lines (a bare `//`) at the start, the end and in the middle of a doc comment: they are lines of it like any other
+                         "\n lead", " trail\n", " a\n\n b", "\n", ""])
 
     def ty(self, depth=0):
         r = self.rng
